@@ -98,6 +98,16 @@ def oracle_laws(R, tier, seed):
                 S = float(base["s%d_S" % i][0])
                 if abs(base["s%d_CL1" % i][0] - Lr / (q * S)) > 1e-10 * max(1, abs(Lr / (q * S))): bad["CL=L/qS-s%d" % i] = 1
                 Ssum += S; CLw += float(base["s%d_CL" % i][0]) * S
+                # the sectional lift coefficient: free-stream-normal component of the chordwise-summed panel forces of strip j over
+                # q * (mean chord of the strip) * (its width); and it integrates back to the surface's lift
+                mesh_i = meshes[i]
+                chords = np.linalg.norm(mesh_i[-1] - mesh_i[0], axis=1); cbar = 0.5 * (chords[1:] + chords[:-1])
+                qc = 0.25 * mesh_i[-1] + 0.75 * mesh_i[0]; widths = np.sqrt((qc[1:, 1] - qc[:-1, 1]) ** 2 + (qc[1:, 2] - qc[:-1, 2]) ** 2)
+                strip = base["s%d_F" % i].sum(axis=0)
+                cl_ref = (strip @ ldir) / (q * cbar * widths)
+                if np.abs(base["s%d_Cl" % i] - cl_ref).max() > 1e-9 * max(np.abs(cl_ref).max(), 1e-12): bad["sectional-Cl-s%d" % i] = float(np.abs(base["s%d_Cl" % i] - cl_ref).max())
+                Lint = float((base["s%d_Cl" % i] * q * cbar * widths).sum()) * (2.0 if sym else 1.0)
+                if abs(Lint - float(base["s%d_L" % i][0])) > 1e-9 * fs: bad["sectional-Cl-does-not-integrate-to-L-s%d" % i] = [Lint, float(base["s%d_L" % i][0])]
             if abs(base["aero.CL"][0] - CLw / Ssum) > 1e-10 * max(1.0, abs(CLw / Ssum)): bad["CL-area-weighted"] = [float(base["aero.CL"][0]), CLw / Ssum]
             if abs(base["L"][0] - 0.5 * rho * v * v * Ssum * base["aero.CL"][0]) > 1e-9 * abs(base["L"][0]) + 1e-9: bad["L=qSCL"] = 1
             O["cases"] += 1
